@@ -4,6 +4,11 @@ import EupsModel.Lemmas.PathAlgMulti
 import EupsModel.Lemmas.PathAlgRef
 import EupsModel.Lemmas.PathAct
 import EupsModel.Lemmas.PathActEups
+import EupsModel.Lemmas.PathAlgRun
+import EupsModel.Lemmas.PathAlgFlags
+import EupsModel.Lemmas.PathActName
+import EupsModel.Lemmas.PathActFile
+import EupsModel.Lemmas.PathAlgNested
 /-! C12 — path-variable commands obey list algebra.  Property theorems only (helper lemmas live in
 `Lemmas/PathAlg.lean`, the model in `Model/PathAlg.lean`). -/
 namespace EupsModel.C12
@@ -462,6 +467,47 @@ theorem nested_reference_removed_example :
       = .ok [(Str.ofString "V", Str.ofString "a"), (Str.ofString "F", Str.ofString "${B}/n"),
          (Str.ofString "B", Str.ofString "/b")] := by decide
 
+
+
+/-- Two references in one value: each is replaced by the value of its own variable (the pinned code of round 0
+replaced both by the first one's: D22) — at the level of envSet. -/
+theorem envset_two_references (var pre keyA mid keyB post a b : Str) (env : Env)
+    (hpre : 36 ∉ pre) (hmid : 36 ∉ mid) (hpost : 36 ∉ post) (ha : 36 ∉ a) (hb : 36 ∉ b)
+    (hkA : GoodKey keyA) (hkB : GoodKey keyB)
+    (hA : env.get keyA = some a) (hB : env.get keyB = some b) (hne : pre ++ a ++ mid ++ b ++ post ≠ []) :
+    envSet true var (pre ++ (36 :: 123 :: keyA ++ 125 :: (mid ++ (36 :: 123 :: keyB ++ 125 :: post)))) env
+      = .ok (env.set var (pre ++ a ++ mid ++ b ++ post)) := by
+  have hnd : 36 ∉ pre ++ a ++ mid ++ b ++ post := by simp [hpre, hmid, hpost, ha, hb]
+  simp only [envSet, ↓reduceIte]
+  rw [expand_two_defined env pre keyA mid keyB post a b hpre hmid hpost hkA hkB hA hB]
+  cases h : pre ++ a ++ mid ++ b ++ post with
+  | nil => exact absurd h hne
+  | cons x xs =>
+    rw [h] at hnd
+    simp [setEnvI, interp_no_dollar env _ _ hnd]
+
+/-- A value written with a reference whose variable's value holds a reference itself (`${F}/bin` with `F = v1${B}v2`):
+setup and unsetup both act on the fully expanded element `pre v1 b v2 post` (repair of D123: the pinned code added it
+expanded and looked for it unexpanded). -/
+theorem path_nested_reference (c : Nat) (append fwd : Bool) (var pre keyF post v1 keyB v2 b : Str)
+    (oldl : List Str) (env : Env)
+    (hpre : 36 ∉ pre) (hpost : 36 ∉ post) (hv1 : 36 ∉ v1) (hv2 : 36 ∉ v2)
+    (hkF : GoodKey keyF) (hkB : 125 ∉ keyB)
+    (hF : env.get keyF = some (v1 ++ (36 :: 123 :: keyB ++ [125]) ++ v2)) (hB : env.get keyB = some b)
+    (hcv : c ∉ pre ++ (36 :: 123 :: keyF ++ [125]) ++ post)
+    (hold : ∀ e ∈ oldl, OldPiece c e) (hgood : GoodPiece c ((pre ++ v1) ++ b ++ (v2 ++ post)))
+    (henv : (env.get var).getD [] = join [c] oldl) :
+    envPrepend append fwd var (pre ++ (36 :: 123 :: keyF ++ [125]) ++ post) [c] env
+      = .ok (env.set var (join [c] (applyL append fwd [(pre ++ v1) ++ b ++ (v2 ++ post)] oldl))) := by
+  have hexp := expand_defined env pre keyF post _ hpre hpost hkF hF
+  have hw : pre ++ (v1 ++ (36 :: 123 :: keyB ++ [125]) ++ v2) ++ post
+      = (pre ++ v1) ++ (36 :: 123 :: keyB ++ [125]) ++ (v2 ++ post) := by simp [List.append_assoc]
+  have hint := interp_defined env (pre ++ v1) keyB (v2 ++ post) b
+    (by simp [hpre, hv1]) (by simp [hv2, hpost]) hkB hB
+  rw [← hw] at hint
+  exact envPrepend_lifts_nested c append fwd var _ _ _ oldl env hold hgood
+    (startsWith_not_mem c _ hcv) (endsWith_not_mem c _ hcv) hexp hint henv
+
 /-! ## `${EUPS_PATH[n]}` (`Lemmas/PathActEups.lean`; repair of D122) -/
 section EupsPath
 open EupsModel.PathAct
@@ -489,6 +535,108 @@ theorem expand_arg_plain (p : ProdInfo) (ep : Option Str) (s : Str) (h : 36 ∉ 
   expandArg_no_dollar p ep s h
 
 end EupsPath
+
+
+/-! ## a whole table on one variable, at string level (`Lemmas/PathAlgRun.lean`) -/
+
+/-- The table's envPrepend/envAppend lines on one variable, run through the string-manipulating action one after the
+other, compute the list-level normal form `setupAll` on the variable's value and touch no other variable. -/
+theorem table_run_string_level (c : Nat) (var : Str) (acts : List (Bool × Str)) (oldl : List Str) (env : Env)
+    (hgood : ∀ a ∈ acts, GoodPiece c a.2) (hold : ∀ e ∈ oldl, OldPiece c e)
+    (henv : (env.get var).getD [] = join [c] oldl) (hne : acts ≠ []) :
+    ∃ env', pathRun c var true acts env = .ok env'
+      ∧ env'.get var = some (join [c] (setupAll acts oldl))
+      ∧ ∀ k, k ≠ var → env'.get k = env.get k :=
+  pathRun_setup c var acts oldl env hgood hold henv hne
+
+/-- String-level inverse (the path-variable half of C02): setup of the table's lines, then the same lines in unsetup
+mode, leaves the variable with its prior elements (duplicate-free reading) and every other variable as it was … -/
+theorem table_roundtrip_string_level (c : Nat) (var : Str) (acts : List (Bool × Str)) (oldl : List Str) (env : Env)
+    (hgood : ∀ a ∈ acts, GoodPiece c a.2) (hold : ∀ e ∈ oldl, OldPiece c e)
+    (henv : (env.get var).getD [] = join [c] oldl) (hne : acts ≠ [])
+    (hfresh : ∀ a ∈ acts, a.2 ∉ oldl) :
+    ∃ env1 env2, pathRun c var true acts env = .ok env1 ∧ pathRun c var false acts env1 = .ok env2
+      ∧ env2.get var = some (join [c] (uniq oldl))
+      ∧ ∀ k, k ≠ var → env2.get k = env.get k :=
+  pathRun_roundtrip c var acts oldl env hgood hold henv hne hfresh
+
+/-- … and when the prior value had no duplicate the whole environment is back, string for string. -/
+theorem table_roundtrip_restores_environment (c : Nat) (var : Str) (acts : List (Bool × Str)) (oldl : List Str)
+    (env : Env) (hgood : ∀ a ∈ acts, GoodPiece c a.2) (hold : ∀ e ∈ oldl, OldPiece c e)
+    (henv : env.get var = some (join [c] oldl)) (hne : acts ≠ [])
+    (hfresh : ∀ a ∈ acts, a.2 ∉ oldl) (hnd : oldl.Nodup) :
+    ∃ env1 env2, pathRun c var true acts env = .ok env1 ∧ pathRun c var false acts env1 = .ok env2
+      ∧ ∀ k, env2.get k = env.get k :=
+  pathRun_roundtrip_nodup c var acts oldl env hgood hold henv hne hfresh hnd
+
+/-- Repeated setup of the table changes nothing any more (string level, every variable). -/
+theorem table_run_idempotent (c : Nat) (var : Str) (acts : List (Bool × Str)) (oldl : List Str) (env : Env)
+    (hgood : ∀ a ∈ acts, GoodPiece c a.2) (hold : ∀ e ∈ oldl, OldPiece c e)
+    (henv : (env.get var).getD [] = join [c] oldl) :
+    ∃ env1 env2, pathRun c var true acts env = .ok env1 ∧ pathRun c var true acts env1 = .ok env2
+      ∧ ∀ k, env2.get k = env1.get k :=
+  pathRun_twice c var acts oldl env hgood hold henv
+
+
+/-- The product's own `${<NAME>_DIR}` stands for its directory whatever characters the name holds (`c++`, `a.b`:
+the reference is matched literally; repair of D124).  Hypothesis: the reference does not itself spell a `${PRODUCT…`
+macro (a product called `product` writes `${PRODUCT_DIR}`, which the earlier step owns — with the same result). -/
+theorem name_dir_macro (p : PathAct.ProdInfo) (d tail : Str) (hd : p.dir = some d) (hne : d ≠ [])
+    (hd36 : 36 ∉ d) (ht : 36 ∉ tail) (hn36 : 36 ∉ p.name)
+    (hP : PathAct.sPRODUCT.isPrefixOf (PathAct.upper p.name ++ Str.ofString "_DIR}" ++ tail) = false) :
+    PathAct.expandMacros p (PathAct.mNameDir p.name ++ tail) = d ++ tail :=
+  PathAct.expandMacros_name_dir p d tail hd hne hd36 ht hn36 hP
+
+/-- … and a reference to another product's variable is not this product's: concrete instance for `c++` vs `${C_DIR}`
+(the pinned pattern `\${C++_DIR}` matched it). -/
+theorem other_product_dir_untouched_example :
+    PathAct.expandMacros PathAct.cxx (Str.ofString "${C_DIR}/lib") = Str.ofString "${C_DIR}/lib" ∧
+    PathAct.expandMacros PathAct.cxx (Str.ofString "${C++_DIR}/bin") = Str.ofString "/opt/c/bin" := by decide
+
+
+/-- Frame for a whole run (a table's actions in order, any directions): a variable that no action targets keeps its
+value; without addAlias lines the aliases are untouched. -/
+theorem run_frame (acts : List (Bool × PathAct.Act)) (s s' : PathAct.St) (k : Str)
+    (h : PathAct.run acts s = .ok s') (hk : ∀ a ∈ acts, k ≠ a.2.target) : s'.env.get k = s.env.get k :=
+  PathAct.run_other_var acts s s' k h hk
+
+theorem run_aliases_frame (acts : List (Bool × PathAct.Act)) (s s' : PathAct.St)
+    (h : PathAct.run acts s = .ok s') (hal : ∀ a ∈ acts, ∀ key ws, a.2 ≠ .alias key ws) :
+    s'.aliases = s.aliases :=
+  PathAct.run_aliases_untouched acts s s' h hal
+
+
+/-! ## what `Product.getTable` hands out for a table file (`Lemmas/PathActFile.lean`) -/
+section File
+open EupsModel.PathAct
+
+/-- Lines other than envUnset all come out of the file, in order, with the older synonyms rewritten and the macros
+expanded in every argument. -/
+theorem table_file_lines_come_through (p : ProdInfo) (ep : Option Str) (acts : List (Bool × Act))
+    (h : ∀ a ∈ acts, ∀ v, a.2 ≠ .unset v) :
+    fromFile p ep acts = acts.map (fun a => (a.1, (a.2.mapArgs legacySyn).expandAll p ep)) :=
+  fromFile_no_unset p ep acts h
+
+/-- An envUnset line for a variable other than the product's own directory variable never comes out … -/
+theorem table_file_drops_foreign_unset (p : ProdInfo) (ep : Option Str) (fwd : Bool) (var : Str)
+    (rest : List (Bool × Act)) (h36 : 36 ∉ var)
+    (h1 : var ≠ Str.ofString "PRODUCT_DIR") (h2 : var ≠ upper p.name ++ Str.ofString "_DIR") :
+    fromFile p ep ((fwd, .unset var) :: rest) = fromFile p ep rest :=
+  fromFile_drops_foreign_unset p ep fwd var rest h36 h1 h2
+
+/-- … and `envUnset(PRODUCT_DIR)` comes out as the unsetting of `<NAME>_DIR`. -/
+theorem table_file_unset_product_dir (p : ProdInfo) (ep : Option Str) (fwd : Bool) (rest : List (Bool × Act))
+    (hn36 : 36 ∉ p.name) :
+    fromFile p ep ((fwd, .unset (Str.ofString "PRODUCT_DIR")) :: rest)
+      = (fwd, .unset (upper p.name ++ Str.ofString "_DIR")) :: fromFile p ep rest :=
+  fromFile_unset_product_dir p ep fwd rest hn36
+
+/-- The older synonym `${UPS_PROD_DIR}` is `${PRODUCT_DIR}` (`Table._rewrite`), wherever it stands in an argument. -/
+theorem legacy_ups_prod_dir (pre post : Str) (hpre : 36 ∉ pre) (hpost : 36 ∉ post) :
+    legacySyn (pre ++ lUPSPRODDIR ++ post) = pre ++ mDIR ++ post :=
+  legacySyn_ups_prod_dir pre post hpre hpost
+
+end File
 
 /-! ## delimiters of several characters, values of several elements (`Lemmas/PathAlgMulti.lean`) -/
 
@@ -519,6 +667,68 @@ theorem string_level_is_list_level_multi_value (d : Str) (hd : d ≠ []) (hd36 :
   envPrepend_lifts_vals d hd hd36 append fwd var vals oldl env hvne hold hv henv
 
 example : GoodPieceD [58, 58] (Str.ofString "/opt/bin") := by unfold GoodPieceD; decide
+
+
+/-- MANPATH style for a literal delimiter of any length and a value of several elements: the new value is the list
+result with the requested leading / trailing delimiters re-attached, never doubled; the elements the list already
+holds may carry any `$` text. -/
+theorem manpath_flags_any_delimiter (d : Str) (hd : d ≠ []) (hd36 : 36 ∉ d) (append pre app : Bool) (var : Str)
+    (vals oldl : List Str) (env : Env) (hvne : vals ≠ [])
+    (hold : ∀ e ∈ oldl, OldPieceD d e) (hv : ∀ e ∈ vals, GoodPieceD d e)
+    (henv : (env.get var).getD [] = join d oldl) :
+    envPrepend append true var (flaggedD d pre app (join d vals)) d env
+      = .ok (env.set var (flaggedD d pre app (join d (applyL append true vals oldl)))) :=
+  envPrepend_lifts_flags_old d hd hd36 append pre app var vals oldl env hvne hold hv henv
+
+/-- … so the new value starts (ends) with the delimiter iff a leading (trailing) one was written. -/
+theorem manpath_flags_iff_any_delimiter (d : Str) (hd : d ≠ []) (append pre app : Bool) (vals oldl : List Str)
+    (hvne : vals ≠ []) (hold : ∀ e ∈ oldl, OldPieceD d e) (hv : ∀ e ∈ vals, GoodPieceD d e) :
+    startsWith (flaggedD d pre app (join d (applyL append true vals oldl))) d = pre ∧
+    endsWith (flaggedD d pre app (join d (applyL append true vals oldl))) d = app :=
+  envPrepend_flags_result d hd append pre app vals oldl hvne hold hv
+
+
+/-! ## non-vacuity: concrete instances of the hypotheses used above -/
+section NonVacuity
+open EupsModel.PathAct
+
+private def sPATH : Str := Str.ofString "PATH"
+private def envX : Env := [(sPATH, Str.ofString "/usr/bin:${X}/b:/usr/bin"), (Str.ofString "F", Str.ofString "/f"),
+  (Str.ofString "N", Str.ofString "${F}/n")]
+
+-- prior elements that hold `$` text are `OldPiece`s, not `GoodPiece`s; the value is a `GoodPiece`
+example : (∀ e ∈ [Str.ofString "/usr/bin", Str.ofString "${X}/b"], OldPiece 58 e) ∧ GoodPiece 58 (Str.ofString "/opt/bin")
+    ∧ ¬ GoodPiece 58 (Str.ofString "${X}/b") := by
+  unfold OldPiece GoodPiece; decide
+-- string_level_any_old_elements / table_roundtrip_string_level on such a variable
+example : envPrepend false true sPATH (Str.ofString "/opt/bin") [58] envX
+    = .ok (envX.set sPATH (Str.ofString "/opt/bin:/usr/bin:${X}/b")) := by decide
+example : pathRun 58 sPATH false [(false, Str.ofString "/opt/bin")] (envX.set sPATH (Str.ofString "/opt/bin:/usr/bin:${X}/b"))
+    = .ok (envX.set sPATH (Str.ofString "/usr/bin:${X}/b")) := by decide
+-- path_expands_reference / path_nested_reference: `${F}/bin` and `${N}/bin`
+example : GoodKey (Str.ofString "F") ∧ GoodKey (Str.ofString "N") := by unfold GoodKey; decide
+example : envPrepend true true sPATH (Str.ofString "${F}/bin") [58] envX
+    = .ok (envX.set sPATH (Str.ofString "/usr/bin:${X}/b:/f/bin")) := by decide
+example : envPrepend true true sPATH (Str.ofString "${N}/bin") [58] envX
+    = .ok (envX.set sPATH (Str.ofString "/usr/bin:${X}/b:/f/n/bin")) := by decide
+example : envPrepend true false sPATH (Str.ofString "${N}/bin") [58] (envX.set sPATH (Str.ofString "/usr/bin:/f/n/bin"))
+    = .ok (envX.set sPATH (Str.ofString "/usr/bin")) := by decide
+-- envset_two_references
+example : envSet true (Str.ofString "V") (Str.ofString "${F}/a/${N}") envX
+    = .ok (envX.set (Str.ofString "V") (Str.ofString "/f/a//f/n")) := by decide
+-- eups_path_subscript: digits, a name without `[`
+example : AllDigits (Str.ofString "10") ∧ 91 ∉ exProd.name := by unfold AllDigits; decide
+example : expandArg exProd (some (Str.ofString "/st:/o")) (Str.ofString "x/${EUPS_PATH[1]}/share") = Str.ofString "x//o/share" := by
+  decide
+-- product_dir_macro / path_product_dir
+example : exProd.dir = some (Str.ofString "/st/p/1") ∧ GoodPiece 58 (Str.ofString "/st/p/1" ++ Str.ofString "/bin") := by
+  unfold GoodPiece; decide
+-- manpath_flags_any_delimiter with `::`
+example : OldPieceD [58, 58] (Str.ofString "/a/${X}") ∧ GoodPieceD [58, 58] (Str.ofString "/m1") := by
+  unfold OldPieceD GoodPieceD; decide
+example : flaggedD [58, 58] true false (Str.ofString "/m1") = Str.ofString "::/m1" := by decide
+
+end NonVacuity
 
 
 end EupsModel.C12
